@@ -308,6 +308,12 @@ func boolFacts(v ssa.Value, truth bool, depth int) []branchFact {
 		if x.Op == token.NOT {
 			return boolFacts(x.X, !truth, depth+1)
 		}
+	case *ssa.Extract:
+		if call, ok := x.Tuple.(*ssa.Call); ok {
+			return predicateFacts(call, x.Index, truth, depth)
+		}
+	case *ssa.Call:
+		return predicateFacts(x, 0, truth, depth)
 	case *ssa.Phi:
 		if len(x.Edges) != 2 {
 			return nil
@@ -332,6 +338,48 @@ func boolFacts(v ssa.Value, truth bool, depth int) []branchFact {
 		}
 	}
 	return nil
+}
+
+// predicateFacts: the comparisons that hold in the callee when result idx of a
+// call to a private predicate of the module (acceptable() (float64, bool)) is
+// true: the predicate has exactly one return that can hand back true; what
+// dominates that return holds, and so does the returned condition itself. The
+// facts are over the callee's values (loads of the same fields, as a rule).
+var predicateBusy = map[*ssa.Function]bool{}
+
+func predicateFacts(call *ssa.Call, idx int, truth bool, depth int) []branchFact {
+	g := call.Call.StaticCallee()
+	if !truth || g == nil || g.Blocks == nil || g.Pkg == nil || !inModulePkg(g.Pkg) || predicateBusy[g] {
+		return nil
+	}
+	if g.Object() != nil && g.Object().Exported() {
+		return nil
+	}
+	predicateBusy[g] = true
+	defer delete(predicateBusy, g)
+	var only *ssa.Return
+	var val ssa.Value
+	for _, r := range returnsOf(g) {
+		res := effectiveResults(r)
+		if idx >= len(res) {
+			return nil
+		}
+		if k, ok := res[idx].(*ssa.Const); ok && k.Value != nil && k.Value.Kind() == constant.Bool && !constant.BoolVal(k.Value) {
+			continue
+		}
+		if only != nil {
+			return nil
+		}
+		only, val = r, res[idx]
+	}
+	if only == nil {
+		return nil
+	}
+	out := branchesAt(only.Block())
+	if _, isK := val.(*ssa.Const); !isK {
+		out = append(out, boolFacts(val, true, depth+1)...)
+	}
+	return out
 }
 
 // relation of (X ? Y) effective on the edge, normalised so that `left` is on the left.
@@ -590,7 +638,7 @@ func ruleDPEmit(c *Ctx, rule string) {
 				if !ok {
 					continue
 				}
-				if n, ok := fieldOf(st.Addr, pkg, "Hit"); ok && n == "Error" && identity != nil && st.Val == identity {
+				if n, ok := fieldOf(st.Addr, pkg, "Hit"); ok && n == "Error" && identity != nil && (st.Val == identity || returnedAs(identity, st.Val)) {
 					if b.Dominates(s.Block()) {
 						okStore = true
 					}
@@ -875,4 +923,43 @@ func fieldValue(v ssa.Value, pkg, typ, field string, outer *ssa.Function, depth 
 		}
 	}
 	return false
+}
+
+// returnedAs: got is the result of a call to v's function at the position
+// where that function returns v (the value computed and tested in a private
+// helper, handed back to the caller).
+func returnedAs(v, got ssa.Value) bool {
+	ins, ok := v.(ssa.Instruction)
+	if !ok || ins.Parent() == nil {
+		return false
+	}
+	g := ins.Parent()
+	var call *ssa.Call
+	idx := 0
+	switch x := got.(type) {
+	case *ssa.Extract:
+		call, _ = x.Tuple.(*ssa.Call)
+		idx = x.Index
+	case *ssa.Call:
+		call = x
+	}
+	if call == nil || call.Call.StaticCallee() != g {
+		return false
+	}
+	found := false
+	for _, r := range returnsOf(g) {
+		res := effectiveResults(r)
+		if idx >= len(res) {
+			return false
+		}
+		if res[idx] == v {
+			found = true
+			continue
+		}
+		// other returns hand back a constant next to a refusal
+		if _, isK := res[idx].(*ssa.Const); !isK {
+			return false
+		}
+	}
+	return found
 }
